@@ -35,6 +35,7 @@ FNLIB = {
     "by_uid3": _by_uid_colour3,
     "by_parity": _by_parity,
     "text_from_label": lambda d: d.get("label"),
+    "text_with_uid": lambda d: ("%s #%d" % (d["text"], d["uid"])) if d.get("text") else None,  # combines two fields of the row
     "time_from_when": lambda d: d["when"],
 }
 
@@ -50,7 +51,8 @@ def make_text(rng, cls, i):
     if cls == "xml":
         return base + rng.choice([" <b>&amp;</b>", " a<b & c>d", ' "q" \'s\'', " ]]> <!-- x -->", " &lt;"])
     if cls == "accent":
-        return base + rng.choice([" café", " Ångström", " naïve façade", " é", " Crème brûlée ñ", " Dvořák"])
+        return base + rng.choice([" café", " Ångström", " naïve façade", " é", " Crème brûlée ñ", " Dvořák", " Vie\u0323\u0302t Nam", " a\u0301\u0308 o\u0302\u0301",
+                                  " e\u0301 (decomposed)", " \u1ec7 \u01d8"])
     if cls == "cjk":
         return base + rng.choice([" 漢字", " 日本語テキスト", " 한국어"])
     if cls == "emoji":
@@ -240,7 +242,9 @@ def gen_spec(rng, scale_kind=None, n=None, direction=None, c08=False, text_class
             if rng.random() < 0.35:
                 lat[k] = rng.choice(vals)
         opts["latex"] = lat
-    if rng.random() < 0.08 and tcls != "none":
+    if rng.random() < 0.06 and tcls != "none":
+        opts["textFn"] = {"fn": "text_with_uid"}
+    elif rng.random() < 0.08 and tcls != "none":
         opts["textFn"] = {"fn": "text_from_label"}
         for d in data:
             if "text" in d:
